@@ -21,10 +21,16 @@ class RequestStreamRequester(StreamHandler, DefaultPublisherSubscription, Reques
         self._send_stream_request(self.payload)
 
     def cancel(self):
+        if self._is_finished:
+            return
+
         self.send_cancel()
         self._finish_stream()
 
     def request(self, n: int):
+        if self._is_finished:
+            return
+
         self.send_request_n(n)
 
     def frame_received(self, frame: Frame):
